@@ -17,10 +17,8 @@ pub mod c14;
 pub mod c15;
 pub mod c16;
 pub mod c17;
-#[cfg(feature = "wip_ayvtx")]
 pub mod c18;
 pub mod c19;
-#[cfg(feature = "wip_ayvtx")]
 pub mod c20;
 
 pub fn dispatch(prop: &str, tier: Tier, seed: u64, replay: Option<String>) -> i32 {
@@ -42,11 +40,9 @@ pub fn dispatch(prop: &str, tier: Tier, seed: u64, replay: Option<String>) -> i3
         "C15" => c15::run(tier, seed, replay),
         "C16" => c16::run(tier, seed, replay),
         "C17" => c17::run(tier, seed, replay),
-        #[cfg(feature = "wip_ayvtx")]
-        "C18" => c18::run(tier, seed, replay),
+                "C18" => c18::run(tier, seed, replay),
         "C19" => c19::run(tier, seed, replay),
-        #[cfg(feature = "wip_ayvtx")]
-        "C20" => c20::run(tier, seed, replay),
+                "C20" => c20::run(tier, seed, replay),
         _ => {
             eprintln!("MACHINERY: unknown property {}", prop);
             2
